@@ -139,6 +139,37 @@ func C02(run *mon.Run) {
 		}(si)
 	}
 	wg.Wait()
+	// skewed shapes: far more than 64 triples under ONE key (per-key grouping sums many hash points per
+	// key) or on ONE message (per-message grouping sums many keys per hash)
+	type skew struct {
+		n, nk, nm int
+		special   string
+	}
+	skews := []skew{{65, 1, 65, "many-per-key"}, {130, 2, 130, "many-per-key"}, {70, 70, 1, "many-per-message"}, {129, 129, 2, "many-per-message"}}
+	if !run.Quick() {
+		skews = append(skews, skew{64, 1, 64, "many-per-key"}, skew{200, 3, 200, "many-per-key"}, skew{257, 2, 257, "many-per-key"}, skew{300, 300, 1, "many-per-message"}, skew{193, 193, 3, "many-per-message"}, skew{128, 2, 64, "many-per-key"})
+	}
+	for i, sk := range skews {
+		wg.Add(1)
+		go func(i int, sk skew) {
+			defer wg.Done()
+			defer run.Protect("c02 worker")
+			r := run.Rand(fmt.Sprintf("skew-%d", i))
+			ks := make([]*big.Int, sk.nk)
+			pks := make([]crypto.PublicKey, sk.nk)
+			for j := range ks {
+				ks[j] = randScalar(r)
+				pks[j] = skFromInt(ks[j]).PublicKey()
+			}
+			hn := "kmac:" + tags[0]
+			var ts []c02Triple
+			for j := 0; j < sk.n; j++ {
+				ts = append(ts, c02Triple{k: ks[j%sk.nk], pk: pks[j%sk.nk], msg: []byte(fmt.Sprintf("skew-%d-%d", i, j%sk.nm)), h: hashers[hn], hn: hn, pkID: fmt.Sprintf("sk%d", j%sk.nk)})
+			}
+			c02RunShape(run, r, 100000+i, sk.special, ts)
+		}(i, sk)
+	}
+	wg.Wait()
 	c02Errors(run)
 	run.Require(run.Counter("path.per-message") >= 20 && run.Counter("path.per-key") >= 20, "both internal groupings not exercised at least 20 times")
 	run.Require(run.Counter("verdict.true") >= 50 && run.Counter("verdict.false") >= 200, "too few true/false verdicts observed")
@@ -221,6 +252,10 @@ func c02RunShape(run *mon.Run, r *rand.Rand, si int, special string, ts []c02Tri
 		return m
 	}
 	nperm := 3
+	if len(ts) > 64 {
+		nperm = 1 // large skewed shapes: the head of the candidate list under two orders
+		cs = cs[:8]
+	}
 	for pi := 0; pi <= nperm; pi++ {
 		perm := make([]int, len(ts))
 		for i := range perm {
@@ -265,7 +300,7 @@ func c02RunShape(run *mon.Run, r *rand.Rand, si int, special string, ts []c02Tri
 			sum = ref.Fr.Add(sum, t.k)
 		}
 		aggPk, _ := crypto.AggregateBLSPublicKeys(pks)
-		for _, c := range cs[:12] {
+		for _, c := range cs[:min(12, len(cs))] {
 			expect := sum.Sign() != 0 && bytes.Equal(c.b, ref.EncodeG1(ref.E1.Mul(Hs[0], sum)))
 			ok, err := crypto.VerifyBLSSignatureOneMessage(permute(r, pks), c.b, ts[0].msg, ts[0].h)
 			ok2, err2 := aggPk.Verify(c.b, ts[0].msg, ts[0].h)
